@@ -270,6 +270,11 @@ func emitReturnStmt(cb *CodeBuilder, pos token.Pos, rets ...js.Expr) {
 	cb.emitStmt(ret)
 }
 
+// ctrlExpr and ctrlStmt: expressions in a JavaScript statement header need no
+// extra parentheses.
+func ctrlExpr(x js.Expr) js.Expr { return x }
+func ctrlStmt(s js.Stmt) js.Stmt { return s }
+
 func emitIfStmt(cb *CodeBuilder, p *ifStmt, el js.Stmt) {
 	if p.init != nil {
 		cb.emitStmt(p.init)
